@@ -602,6 +602,8 @@ var (
 	envSizes = map[*ssa.Function]int{}
 	extCache = map[*ssa.Function]externalFn{}
 	extNone  = map[*ssa.Function]bool{}
+	// functions with a body whose model comes from the externals table (may be unregistered temporarily)
+	extFromTable = map[*ssa.Function]bool{}
 )
 
 // envSize returns the number of SSA values of fn (to pre-size the frame environment).
@@ -623,6 +625,11 @@ func envSize(fn *ssa.Function) int {
 
 func findExternalCached(fn *ssa.Function) externalFn {
 	if e, ok := extCache[fn]; ok {
+		if extFromTable[fn] && externals[fnName(fn)] == nil {
+			// a redirector (ext_C06/C08/C11/C12/C14/C16: `delete(externals, ext)` + callSSA)
+			// unregistered itself to fall through to the real body: do not serve the stale entry
+			return findExternal(fn)
+		}
 		return e
 	}
 	if extNone[fn] {
@@ -633,6 +640,9 @@ func findExternalCached(fn *ssa.Function) externalFn {
 		extNone[fn] = true
 	} else {
 		extCache[fn] = e
+		if fn.Blocks != nil && externals[fnName(fn)] != nil {
+			extFromTable[fn] = true
+		}
 	}
 	return e
 }
